@@ -947,3 +947,13 @@ PROPS["C02"]["claim"] += (" Round 3 of cmfrag - the FULL UNION FRAGMENT (fragmen
 PROPS["C08"]['claim'] += (" The HTML-level theorems also in TOTAL form (convert_quote_prefix_total, _lists_total, _no_final_newline_total, _raw_leaves_total, "
     "_good_lines_total, _checked_total): both conversions exist and are related, no 'converts' hypothesis left.")
 PROPS["C09"]["claim"] += (" TOTAL forms: heading_then_blocks_html_total, _good_lines_total, _checked_total.")
+
+# ---- session 4, tnopanic round 3: the block phase with the table transformer ----
+PROPS["C01"]["claim"] += (" Block phase of EVERY GFM member set (tnopanic round 3, GM.Props.ConvertNPX): the generic no-panic theorem for transformer lists now "
+    "has a WIDENED contract (block_phase_with_transformers_total_x: a transformer call may add any number of fresh nodes below fresh nodes or below the "
+    "paragraph's parent and keep any sub-list of the lines, provided the tree and last-child frames hold; narrow_contract_is_wide, wide_contract_append), "
+    "the table paragraph transformer is inside it (table_transformer_in_wide_contract, table_transformer_terminates, "
+    "table_and_linkref_checks_never_fire), hence block_phase_x_total: for every member set of {Strikethrough, TaskList, Table, Linkify} and every byte "
+    "string the block phase returns a store with all lines in range (block_phase_x_line_facts, block_phase_x_tree_consistent, "
+    "block_phase_x_guard_is_observer). What separates this from convertgfm_total: two facts about table records in the final store (RecordsClassify; "
+    "escaped-pipe positions ascending across tables) - convertl_total_of_records_and_esc is the composition.")
